@@ -287,14 +287,34 @@ class Scalar(AbstractValueWithQuantityObject):
     def __hash__(self) -> int:  # type:ignore[override]
         return hash((self._value, self._quantity))
 
-    def __lt__(self, other: Any) -> bool:
+    def _GetValuesToCompare(self, other: Any) -> Any:
+        """
+        :returns:
+            This value and the other value expressed in this unit (the order operators compare them;
+            deriving them with `total_ordering` from `<` and the unit-sensitive `==` gave
+            contradictory answers for equal amounts written in different units).
+        """
         if self.quantity_type != other.quantity_type:
             msg = "can not compare scalars of different quantity types: %r != %r"
             raise TypeError(msg % (self.quantity_type, other.quantity_type))
 
-        v1 = self._value
-        v2 = other.GetValue(self.unit)
+        return self._value, other.GetValue(self.unit)
+
+    def __lt__(self, other: Any) -> bool:
+        v1, v2 = self._GetValuesToCompare(other)
         return v1 < v2
+
+    def __le__(self, other: Any) -> bool:
+        v1, v2 = self._GetValuesToCompare(other)
+        return v1 <= v2
+
+    def __gt__(self, other: Any) -> bool:
+        v1, v2 = self._GetValuesToCompare(other)
+        return v1 > v2
+
+    def __ge__(self, other: Any) -> bool:
+        v1, v2 = self._GetValuesToCompare(other)
+        return v1 >= v2
 
     # right ----------------------------------------------------------------------------------------
     def __rtruediv__(self, other: Any) -> "Scalar":
